@@ -184,6 +184,19 @@ def r24_3(ctx, rep):
         rep.ob(R, "%s:%s.%s" % (SYM, CLS, nm), "stores the mangled name", ok, "self.src[tree] must be the mangled name")
 
 
+@SPEC.rule(
+    "R24.4",
+    "literal values are rendered losslessly: exitPrimary turn a node's .value into text only through str()/repr()/plain "
+    "placeholders — no format specification with a precision or numeric presentation type, no round()/int(), neither in "
+    "the handler nor in a helper it calls",
+)
+def r24_4(ctx, rep):
+    from ._literal import literal_rule
+
+    literal_rule(ctx, rep, "R24.4", SYM, "SympyGenerator", ['exitPrimary'],
+                 "a float literal of an equation is printed through a lossy conversion, so the generated residual differs numerically from lhs - rhs")
+
+
 # -- seeded variants ---------------------------------------------------------
 from ._mut import replace_in_func  # noqa: E402
 
@@ -222,3 +235,15 @@ def _m3(mod):
         return False
 
     return mod if replace_in_func(mod, "SympyGenerator.exitClass", edit) else None
+
+
+@SPEC.mutant("float literals printed with {:g}", SYM, "R24.4", "lossless")
+def _m_lit(mod):
+    def edit(fn):
+        for n in ast.walk(fn):
+            if isinstance(n, ast.Call) and is_name(n.func, "str") and n.args and isinstance(n.args[0], ast.Attribute) and n.args[0].attr == "value":
+                n.func = ast.Attribute(value=ast.Constant(value="{:g}"), attr="format", ctx=ast.Load())
+                return True
+        return False
+
+    return mod if replace_in_func(mod, "SympyGenerator.exitPrimary", edit) else None
